@@ -361,6 +361,10 @@ def fam_attacker(f):
         mk("control.cert:AT1/key:AT1", ("certificate", [p.d("AT1")]), "AT1")
         mk("control.digest:AT1/key:AT1", ("digest", p.h8("AT1")), "AT1")
         mk("control.cert:AT_root/own-key", ("certificate", [p.d("AT_root")]), "AT_root")
+        # genuine CA keys used to sign a message directly: the signer is not an authorization ticket
+        mk("cert:AA/key:AA(genuine CA as signer)", ("certificate", [p.d("AA")]), "AA")
+        mk("cert:SUB/key:SUB(CA not known to receiver)", ("certificate", [p.d("SUB")]), "SUB")
+        mk("digest:AA/key:AA", ("digest", p.h8("AA")), "AA")
     return out
 
 
